@@ -135,6 +135,8 @@ def bi_open(it, a, k):
     mode = vals.concrete_str(a[1]) if len(a) > 1 else "r"
     if mode is None:
         raise Unsupported("open() with symbolic mode")
+    if mode not in ("r", "rb", "rt", "w", "wb", "wt", "a", "ab", "x", "xb", "r+", "rb+", "r+b", "w+", "wb+", "w+b"):
+        raise Unsupported(f"open() mode {mode!r} is not a mode the model knows (Python raises ValueError for invalid modes)")
     it.path.effects.append(("Fs", p))
     d, nm = split_path(it, p)
     key = dir_state(it, d)
